@@ -22,6 +22,14 @@ def run(ctx):
         f3 = ex.submit(ve.emit, ctx, (3, 3, 2), 4 if quick else 5)
         crecs = f1.result() + f2.result()
         vrecs = f3.result()
+    # T1: the readers accept the transcribed writers on a small universe of index meshes, and reject wrong writers
+    from .. import tlc
+    res = tlc.run("MeshWriters", "SPECIFICATION WSpec\nINVARIANT T1_ReadersAcceptWriters\nINVARIANT T1_WrongWritersRejected\n"
+                  "CHECK_DEADLOCK FALSE\n", workers=2, timeout=300)
+    ctx.tlc(res, "MeshWriters T1: Read(Write(mesh)) = mesh for the transcribed writers; wrong writers rejected")
+    if res.violated:
+        ctx.violation({"cls": "spec", "obs": res.violated, "tags": ["T1"], "msg": f"{res.violated} fails in MeshWriters.tla"},
+                      {"tlc": res.stdout[-2000:]})
     mesh_eval.run(ctx, crecs, vrecs)
     ctx.exhaustive = False
     return ctx.finish(rule=RULE, assumptions=[
